@@ -77,13 +77,31 @@ JVM = dict(JAVA_TOOL_OPTIONS='-XX:ParallelGCThreads=2 -XX:CICompilerCount=2')
 
 def _tlc_job(job):
     name, body, cfgkw, kw = job
-    return name, tlc.run('MCSubstX', cfg_text=_cfg('VFFamilies', **cfgkw), tag='c13-' + name, deadlock=False, env=JVM,
-                         extra_modules=[_module('c13-' + name, body)], **kw)
+    kw = dict(kw, timeout=kw.get('timeout', 900) * float(os.environ.get('VF_TIMEOUT_SCALE', '1')))
+    cache = os.environ.get('VF_C13_CACHE')    # development aid only: reuse the TLC result of an identical job
+    if cache:
+        import hashlib, pickle
+        h = hashlib.sha1(repr((body, sorted(cfgkw.items()), sorted((k, v) for k, v in kw.items() if k != 'timeout'))).encode())
+        for fn in ('Subst.tla', 'MCSubst.tla', 'ArraySem.tla'):
+            h.update(open(os.path.join(tlc.SPEC, fn), 'rb').read())
+        path = os.path.join(cache, name + '-' + h.hexdigest()[:16] + '.pkl')
+        if os.path.exists(path):
+            return name, pickle.load(open(path, 'rb'))
+    res = tlc.run('MCSubstX', cfg_text=_cfg('VFFamilies', **cfgkw), tag='c13-' + name, deadlock=False, env=JVM,
+                  extra_modules=[_module('c13-' + name, body)], **kw)
+    if cache:
+        os.makedirs(cache, exist_ok=True)
+        pickle.dump(res, open(path, 'wb'))
+    return name, res
 
 
 def run(rep):
+    exh, sim, tables = tlc_stage(rep)
+    replay_stage(rep, exh, sim, tables)
+
+
+def tlc_stage(rep):
     import concurrent.futures
-    rng = random.Random(rep.seed)
     quick = rep.tier == 'quick'
     tables = {}
     famlist = 'QuickFamilies' if quick else 'ThoroughFamilies'
@@ -91,15 +109,18 @@ def run(rep):
     nsimfam = 4
     jobs = []
     # 1. design spec, exhaustive over small vocabularies (one TLC process per vocabulary), with per-action coverage
+    # (TLC's -coverage more than doubles the run time of this arithmetic-heavy spec: per-action coverage is taken from the compact
+    # all-actions vocabulary CovFamilies; for the other runs the actions taken are counted from the emitted behaviours)
+    jobs.append(('cov', 'CovFamilies', {}, dict(workers=2, coverage=True, timeout=900 if quick else 2400)))
     for i in range(1, nfam + 1):
-        jobs.append(('exh{}'.format(i), '<< {}[{}] >>'.format(famlist, i), {}, dict(workers=2 if quick else 4, coverage=True, timeout=300 if quick else 2400)))
+        jobs.append(('exh{}'.format(i), '<< {}[{}] >>'.format(famlist, i), {}, dict(workers=2 if quick else 4, coverage=not quick, timeout=900 if quick else 2400)))
     # 2. spec mutants: each must violate its lemma
     for name, inv in MUTANTS.items():
         jobs.append(('mutant-' + name, 'MutantFamilies', dict(mutant=name, invariants=[inv], emit=False), dict(workers=1, timeout=600)))
     # 3. deeper behaviours by simulation
     nsim = 100 if quick else 2500
     for i in range(1, nsimfam + 1):
-        jobs.append(('sim{}'.format(i), '<< SimFamilies[{}] >>'.format(i), {}, dict(workers=1, simulate=dict(num=nsim), depth=16, seed=rep.seed + 13 + i, timeout=240 if quick else 900)))
+        jobs.append(('sim{}'.format(i), '<< SimFamilies[{}] >>'.format(i), {}, dict(workers=1, simulate=dict(num=nsim), depth=16, seed=rep.seed + 13 + i, timeout=600 if quick else 900)))
     with concurrent.futures.ThreadPoolExecutor(max_workers=8 if quick else 6) as pool:
         results = dict(pool.map(_tlc_job, jobs))
     rep.lap('TLC: {} runs'.format(len(jobs)))
@@ -116,13 +137,14 @@ def run(rep):
             continue
         if res.violated:
             raise tlc.TLCError('Subst ({}): model-internal lemma {} violated (the model is wrong):\n{}'.format(name, res.violated, '\n'.join(res.error_trace[:80])))
-        rep.add_tlc(res, exhaustive=name.startswith('exh'))
-        tgt = exh if name.startswith('exh') else sim
+        isexh = name.startswith('exh') or name == 'cov'
+        rep.add_tlc(res, exhaustive=isexh)
+        tgt = exh if isexh else sim
         before = set(tgt)
         collect(res, tgt, tables)
         for k in set(tgt) - before:
             tgt[k]['fam'] = name
-        if name.startswith('exh'):
+        if isexh:
             for a, (d, t) in res.coverage.items():
                 coverage[a] += t
     rep.exhaustive = False   # the simulation runs are not exhaustive; the exhN runs are (see tlc_cmds)
@@ -132,8 +154,12 @@ def run(rep):
         raise RuntimeError('vacuous: actions never taken: {}'.format(missing))
     if not tables:
         raise RuntimeError('the tables were not emitted')
-    res = r = None
+    return exh, sim, tables
 
+
+def replay_stage(rep, exh, sim, tables):
+    rng = random.Random(rep.seed)
+    quick = rep.tier == 'quick'
     # ---- 4. selection of the groups (program + all predicted outcomes) to replay
     budget = 2600 if quick else 30000
     egroups = list(exh.values())
@@ -154,7 +180,7 @@ def run(rep):
                          exhaustive_outcomes=sum(len(g['outcomes']) for g in exh.values()))
     # quick: the baseline spelling plus two rotating other spellings per program; thorough: every spelling for every program
     items = [(tables, g['prog'], list(g['outcomes'].values()), [2 * i, 2 * i + 1] if quick else None) for i, g in enumerate(sel)]
-    del exh, sim, egroups, sgroups, byfam, results
+    del exh, sim, egroups, sgroups, byfam
     import gc
     cr.warm()
     gc.collect()
